@@ -38,7 +38,7 @@ def named_args(name, dim, seed, lo, hi):
     if name == "MultivariateNormal":
         d = max(dim, 1)
         q, _ = np.linalg.qr(r.normal(size=(d, d)))
-        s = _loguniform(r, max(lo, 1e-2), min(hi, 1e2), d)
+        s = _loguniform(r, lo, hi, d)  # overall covariance magnitude over the property's full range
         ev = np.exp(r.uniform(0, math.log(20.0), d))  # condition number <= 20
         cov = (q * ev) @ q.T
         cov = (cov + cov.T) / 2 * float(s[0])
